@@ -30,6 +30,7 @@ type JobOpts struct {
 	// HoldPoints restricts the hook points single-hold policies choose from
 	HoldPoints []string `json:"hold_points"`
 	Sub2       bool     `json:"sub2"`
+	RoundTrip  bool     `json:"roundtrip"`
 }
 
 type Job struct {
@@ -75,7 +76,7 @@ func (o JobOpts) driveOpts() drive.Options {
 	d.Auto = o.Auto
 	d.Perturb = o.Perturb
 	d.Sub2 = o.Sub2
-	d.Sub2 = o.Sub2
+	d.RoundTrip = o.RoundTrip
 	return d
 }
 
